@@ -73,6 +73,11 @@ func Generate(profile string, seed uint64, tier string) (*Scenario, error) {
 		}
 		sc.Datasets = c.Datasets
 		ops := g.GenStoreHistory(c)
+		if g.P(0.15) && len(ops) > 1 {
+			// a full sync that lists nothing empties one of the datasets somewhere in the history
+			at := g.Intn(len(ops)-1) + 1
+			ops = append(ops[:at:at], append([]Op{{K: "fullsyncAway", DS: g.Pick(c.Datasets)}}, ops[at:]...)...)
+		}
 		marks := 0
 		for _, op := range ops {
 			if (op.K == "batch" || op.K == "txn") && marks < 4 && g.P(0.3) {
